@@ -376,7 +376,7 @@ func playProxy(sc Script) {
 	emit(map[string]interface{}{"a": "Reset", "id": sc.ID})
 	u := &under{hdr: http.Header{}}
 	for _, op := range sc.Ops {
-		if op.Op != "WH" {
+		if op.Op != "WH" && op.Op != "FL" {
 			u.next = append(u.next, op.X)
 		}
 	}
@@ -395,6 +395,12 @@ func playProxy(sc Script) {
 			switch op.Op {
 			case "WH":
 				w.WriteHeader(op.X)
+			case "FL":
+				if fl, ok := w.(http.Flusher); ok {
+					fl.Flush()
+				} else {
+					panic("Flush scripted but the proxy does not offer it")
+				}
 			case "W":
 				w.Write([]byte("12345"))
 			case "RF":
